@@ -109,4 +109,22 @@ inline void OptionalCopy() {
 }
 // END optional_copy_of_move_only
 
+// Copies from NON-const lvalues are copies.  For T = bool the explicit conversion to bool makes T constructible from an
+// Optional<bool> lvalue, so an unconstrained forwarding constructor / assignment hijacks the copy (F-R).
+// (the empty case is decided by rule CH on the resolved constructor: the trivially-destructible State copies its inactive
+// storage member, which is not a constant expression)
+constexpr bool CopyOfFalseEntryLvalueIsFalse() { nop::Entry<bool, 1> f{false}; nop::Optional<bool> c{f}; return !c.empty() && !c.get(); }
+static_assert(CopyOfFalseEntryLvalueIsFalse(), "W:optional_bool.copy_of_false_entry_lvalue_is_false");
+constexpr bool CopyOfFalseLvalueIsFalse() { nop::Optional<bool> f{false}; nop::Optional<bool> c{f}; return !c.empty() && !c.get(); }
+static_assert(CopyOfFalseLvalueIsFalse(), "W:optional_bool.copy_of_false_lvalue_is_false");
+// MUSTCOMPILE optional_bool_lvalue_assignment
+inline void OptionalBoolAssign() {
+  nop::Optional<bool> a, b{true};
+  a = b;
+  nop::Entry<bool, 1> x, y;
+  x = y;
+  a = x;
+}
+// END optional_bool_lvalue_assignment
+
 }  // namespace w
